@@ -423,7 +423,7 @@ func readKinds(fd *ast.FuncDecl) []string {
 		switch {
 		case name == "io.ReadFull":
 			l = append(l, pk{c.Pos(), "Full"})
-		case name == "io.CopyN":
+		case name == "io.CopyN" || name == "io.ReadAtLeast":
 			l = append(l, pk{c.Pos(), "Full"})
 		case strings.HasSuffix(name, ".Read") && len(c.Args) == 1 && !strings.HasPrefix(name, "dec.") && !strings.HasPrefix(name, "NewStrListDecoder") && !strings.HasPrefix(name, "NewUintListDecoder") && !strings.HasPrefix(name, "NewFloatListDecoder") && !strings.HasPrefix(name, "sf."):
 			// a call x.Read(buf) on an io.Reader-like value
@@ -809,6 +809,13 @@ func main() {
 	for _, s := range sites {
 		rk = append(rk, "("+coqStr(s.fn)+", "+coqStrList(readKinds(findFunc(s.file, s.fn)))+")")
 	}
+	var rsk []string
+	for _, s := range sites {
+		for k, kind := range readKinds(findFunc(s.file, s.fn)) {
+			rsk = append(rsk, "("+coqStr(fmt.Sprintf("%s:%s#%d", s.file, s.fn, k))+", "+coqStr(kind)+")")
+		}
+	}
+	def("read_site_kinds", "list (string * string)", "[\n  "+strings.Join(rsk, ";\n  ")+"]", "one entry per read call: <file>:<func>#<k> (k = source-order index among Read/ReadFull/ReadAtLeast/CopyN calls in that function)")
 	def("read_sites", "list (string * list string)", "[\n  "+strings.Join(rk, ";\n  ")+"]", "for each decoder function, the kind of every fixed-size read it issues: Full = io.ReadFull/io.CopyN, Single = one Read call")
 
 	// ---- write-order skeletons (C13 C14 C07 C12)
